@@ -56,8 +56,11 @@ type verifPipelineResult struct {
 	// receive buffers found in the pool afterwards whose length is not the configured UDP size
 	ShortBuffers int `json:"short_buffers"`
 	// workers that had not returned 5 s after their quit channel was closed
-	StuckWorkers int    `json:"stuck_workers"`
-	Error        string `json:"error,omitempty"`
+	StuckWorkers int `json:"stuck_workers"`
+	// receive buffers found in the pool more than once afterwards (the same backing array handed back twice: two later
+	// datagrams would be read into the same memory)
+	DuplicateBuffers int    `json:"duplicate_buffers"`
+	Error            string `json:"error,omitempty"`
 }
 
 func init() { verifCommands["pipeline"] = verifPipeline }
